@@ -205,10 +205,65 @@ func c13Run(x *mc.Exec, order bool) {
 	}
 }
 
+// c13TwoSchemas: "each with the schema's definition" - the schema given to THIS
+// call. Two schemas declare a type of the same name with the same field names
+// but different definitions; payloads are unmarshaled against them alternately.
+func c13TwoSchemas(x *mc.Exec) {
+	kinds := []Kind{kStr, kInt, kPInt, kBool}
+	k1 := kinds[x.Choose(len(kinds), "kind in schema 1")]
+	k2 := kinds[x.Choose(len(kinds), "kind in schema 2")]
+	soft1, soft2 := x.Bool("schema 1 soft"), x.Bool("schema 2 soft")
+	lit := map[Kind]string{kStr: `"7"`, kInt: "7", kPInt: "7", kBool: "true"}
+	mk := func(k Kind, soft bool, toOne bool) *j.Schema {
+		d := TypeD{Name: "t", Attrs: []AttrD{{"code", k}}, Rels: []RelD{{"rel", toOne, "t", ""}}}
+		return BuildSchema([]TypeD{d}, []bool{soft})
+	}
+	s1, s2 := mk(k1, soft1, true), mk(k2, soft2, false)
+	order := []int{1, 2, 1}
+	if x.Bool("start with schema 2") {
+		order = []int{2, 1, 2}
+	}
+	desc := fmt.Sprintf("t.code is %s in schema 1 and %s in schema 2; calls %v", k1, k2, order)
+	x.Render(desc)
+	x.R.Mark("nontrivial", mc.Hash(desc, soft1, soft2))
+	for _, which := range order {
+		s, k, toOne := s1, k1, true
+		if which == 2 {
+			s, k, toOne = s2, k2, false
+		}
+		data := `{"type":"t","id":"a"}`
+		if !toOne {
+			data = `[{"type":"t","id":"a"}]`
+		}
+		payload := `{"type":"t","id":"1","attributes":{"code":` + lit[k] + `},"relationships":{"rel":{"data":` + data + `}}}`
+		var r *j.SoftResource
+		var err error
+		if p := Try(func() { r, err = j.UnmarshalPartialResource([]byte(payload), s) }); p != "" || err != nil || r == nil {
+			x.Fail("C13:two-schemas:rejected", "%s: schema %d rejects %s: panic %q err %v", desc, which, payload, p, err)
+			return
+		}
+		x.R.Add("transitions", 1)
+		want := s.GetType("t")
+		if got := r.Attrs()["code"]; got != want.Attrs["code"] {
+			x.Fail("C13:two-schemas:attr-definition", "%s: against schema %d attribute code is defined as %+v, the schema says %+v", desc, which, got, want.Attrs["code"])
+			return
+		}
+		if got := r.Rels()["rel"]; got != want.Rels["rel"] {
+			x.Fail("C13:two-schemas:rel-definition", "%s: against schema %d relationship rel is defined as %s, the schema says %s", desc, which, showRel(got), showRel(want.Rels["rel"]))
+			return
+		}
+		full, _ := j.UnmarshalResource([]byte(payload), s)
+		if full != nil && (!SameAttrValue(full.Get("code"), r.Get("code")) || !reflect.DeepEqual(full.Get("rel"), r.Get("rel"))) {
+			x.Fail("C13:two-schemas:value", "%s: against schema %d code=%s rel=%v, full unmarshaling gives %s / %v", desc, which, ShowVal(r.Get("code")), r.Get("rel"), ShowVal(full.Get("code")), full.Get("rel"))
+			return
+		}
+	}
+}
+
 func init() {
 	Register(&Prop{
 		ID: "C13",
-		Rule: "Engine A, all choices Full, complete product: {soft,struct-backed} x 3 attributes each in {absent, valid, explicit null, wrong kind} x 2 relationships each in 10 forms x a second to-one relationship in 4 forms, plus a reduced product (1 attribute) with the partial call under every iteration order of one member map (deviation bound 1) (absent, {}, links only, meta only, data:null, identifier, data:[], list of 2, wrong kind, data+links) x {plain, unknown attribute, unknown relationship with/without data, unknown type}. Oracle: partial accepts iff full accepts; on acceptance Attrs()/Rels() = names present / names with a data member, definitions = schema's, values = full unmarshaling's, every other schema field reads nil. Non-trivial = accepted payload with a proper, non-empty subset of the fields",
-		Harnesses: []Harness{{Name: "C13/payload", Body: c13Body}, {Name: "C13/member-order", Body: c13Order, Dev: func() int { return 1 }}},
+		Rule: "Engine A, all choices Full, complete product: {soft,struct-backed} x 3 attributes each in {absent, valid, explicit null, wrong kind} x 2 relationships each in 10 forms x a second to-one relationship in 4 forms, plus a reduced product (1 attribute) with the partial call under every iteration order of one member map (deviation bound 1) (absent, {}, links only, meta only, data:null, identifier, data:[], list of 2, wrong kind, data+links) x {plain, unknown attribute, unknown relationship with/without data, unknown type}. plus two schemas declaring a same-named type with the same field names and different definitions (4 x 4 kinds, both cardinalities, soft/struct), used alternately. Oracle: partial accepts iff full accepts; on acceptance Attrs()/Rels() = names present / names with a data member, definitions = schema's, values = full unmarshaling's, every other schema field reads nil. Non-trivial = accepted payload with a proper, non-empty subset of the fields",
+		Harnesses: []Harness{{Name: "C13/payload", Body: c13Body}, {Name: "C13/member-order", Body: c13Order, Dev: func() int { return 1 }}, {Name: "C13/two-schemas", Body: c13TwoSchemas}},
 	})
 }
